@@ -99,9 +99,25 @@ static char *run_program(int id)
 
 static char **expected; static int iterations; static volatile int mismatches;
 
+/* optional: threads use locales of their own (argv[4] = "loc"): thread 0 a comma-decimal one, every third thread a
+   point-decimal object, the others none - what one thread does under its locale must not reach the others */
+#include <locale.h>
+static int use_locales;
+static locale_t thread_locale(int id)
+{
+  if(!use_locales) return (locale_t)0;
+  const char *nm = (id == 0) ? "xx_XX.utf8" : ((id % 3 == 2) ? "yy_YY.utf8" : NULL);
+  if(!nm) return (locale_t)0;
+  locale_t l = newlocale(LC_ALL_MASK, nm, (locale_t)0);
+  if(l) uselocale(l);
+  return l;
+}
+static void drop_locale(locale_t l) { if(l) { uselocale(LC_GLOBAL_LOCALE); freelocale(l); } }
+
 static void *worker(void *arg)
 {
   int id = (int)(long)arg;
+  locale_t tl = thread_locale(id);
   for(int it = 0; it < iterations; it++)
   {
     char *r = run_program(id);
@@ -113,6 +129,7 @@ static void *worker(void *arg)
     }
     free(r);
   }
+  drop_locale(tl);
   return NULL;
 }
 
@@ -129,11 +146,23 @@ int main(int argc, char **argv)
     snprintf(p, sizeof p, "%s/t%d/site.cfg", workdir, id);
     FILE *f = fopen(p, "w"); fprintf(f, "site = { owner = %d; name = \"site%d\"; };\n", id * 11, id); fclose(f);
   }
-  for(int id = 0; id < nt; id++) expected[id] = run_program(id);      /* alone */
+  use_locales = (argc > 4 && !strcmp(argv[4], "loc"));
+  if(use_locales)
+  {
+    locale_t probe = newlocale(LC_ALL_MASK, "xx_XX.utf8", (locale_t)0);
+    if(!probe) { printf("locale-unavailable\n"); return 3; }
+    freelocale(probe);
+  }
+  for(int id = 0; id < nt; id++)                                      /* alone, under the thread's own locale */
+  {
+    locale_t tl = thread_locale(id);
+    expected[id] = run_program(id);
+    drop_locale(tl);
+  }
   pthread_t *th = calloc((size_t)nt, sizeof *th);
   for(int id = 0; id < nt; id++) pthread_create(&th[id], NULL, worker, (void *)(long)id);
   for(int id = 0; id < nt; id++) pthread_join(th[id], NULL);
   printf("threads=%d iterations=%d mismatches=%d\n", nt, iterations, mismatches);
-  if(argc > 4) fputs(expected[nt - 1], stdout);
+  if(argc > 4 && strcmp(argv[4], "loc")) fputs(expected[nt - 1], stdout);
   return mismatches ? 1 : 0;
 }
